@@ -117,6 +117,7 @@ class Verifier(ExprMixin, StmtMixin, CallMixin, LibMixin, FoldMixin, Executor):
             raise Unsupported(c.error)
         self.find_escaped(node.get("Body"), self.escaped)
         self.nomerge = c is not None and "paths" in c.flags
+        self.nomerge_mode = (c.flags.get("paths") or "split").strip() if self.nomerge else "split"
         st = State()
         inputs = []
         if node.get("Recv") and node["Recv"].get("List"):
